@@ -21,12 +21,12 @@ Procs == Decoders \cup Registrars
 Ops(p) == CASE p = "R1" -> <<[cid |-> 200, size |-> 1], [cid |-> 200, size |-> 2]>>
             [] p = "R2" -> <<[cid |-> 201, size |-> 3]>>
             [] p = "D1" -> <<[cid |-> 200], [cid |-> 201]>>
-            [] p = "D2" -> <<[cid |-> 200]>>
+            [] p = "D2" -> <<[cid |-> 3], [cid |-> 200]>>          \* 3 = LinkADRAns: a STANDARD entry (size 1) lives in the same map
 
 VARIABLES reg, readers, writer, pc, opi, seen, results, sched, hist
 vars == <<reg, readers, writer, pc, opi, seen, results, sched, hist>>
 NoOne == "none"
-Init == /\ reg = [c \in {200, 201} |-> 0] /\ readers = {} /\ writer = NoOne
+Init == /\ reg = [c \in {3, 200, 201} |-> IF c = 3 THEN 1 ELSE 0] /\ readers = {} /\ writer = NoOne
         /\ pc = [p \in Procs |-> "idle"] /\ opi = [p \in Procs |-> 1]
         /\ seen = [p \in Procs |-> -1] /\ results = [p \in Procs |-> <<>>] /\ sched = <<>> /\ hist = <<>>
 
